@@ -249,20 +249,34 @@ def r2_field_sets(run, w):
   mc = w.fn("docactions.DocActions.ModifyColumn")
   ps = mc.fi.params()
   p_col, p_info = ps[2], ps[3]
+  def by_field(call):
+    """The constructor's arguments in field order (positional or by field name), else None."""
+    if any(isinstance(a, ast.Starred) for a in call.args) or \
+        any(k.arg is None or k.arg not in fields for k in call.keywords):
+      return None
+    out = list(call.args)
+    for f in fields[len(call.args):]:
+      v = H.kwarg(call, f)
+      if v is None:
+        return None
+      out.append(v)
+    return out if len(out) == len(fields) == len(call.args) + len(call.keywords) else None
   ctors = [c for c in calls_in(mc.node) if endswith(dotted(c.func), "SchemaColumn")]
-  if len(ctors) != 1 or ctors[0].keywords or len(ctors[0].args) != len(fields):
-    raise AnalysisError("DocActions.ModifyColumn: expected one positional SchemaColumn(...) call")
+  if len(ctors) != 1 or by_field(ctors[0]) is None:
+    raise AnalysisError("DocActions.ModifyColumn: expected one SchemaColumn(...) call giving "
+                        "every field")
   ctor = ctors[0]
+  cargs = by_field(ctor)
   cst = H.stmt_of(mc.node, ctor)
   newvar = cst.targets[0].id if isinstance(cst, ast.Assign) and \
       isinstance(cst.targets[0], ast.Name) else None
   oldvars = set()
-  run.ob(R2, mc.qualname, "SchemaColumn(%s, ...)" % text(ctor.args[0]),
-         "the rebuilt column keeps its id", text(ctor.args[0]) == p_col, fi=mc.fi, node=ctor)
-  for f, a in zip(props, ctor.args[1:]):
-    a = H.strip_bool(a)
+  run.ob(R2, mc.qualname, "SchemaColumn(%s, ...)" % text(cargs[0]),
+         "the rebuilt column keeps its id", H.canon(mc, cargs[0]) == p_col, fi=mc.fi, node=ctor)
+  for f, a in zip(props, cargs[1:]):
+    a = H.strip_bool(H.deref(mc, a))
     ok = isinstance(a, ast.Call) and isinstance(a.func, ast.Attribute) and a.func.attr == "get" \
-        and text(a.func.value) == p_info and len(a.args) == 2 and \
+        and H.canon(mc, a.func.value) == p_info and len(a.args) == 2 and \
         isinstance(a.args[0], ast.Constant) and a.args[0].value == f and \
         isinstance(a.args[1], ast.Attribute) and a.args[1].attr == f and \
         isinstance(a.args[1].value, ast.Name)
@@ -276,7 +290,7 @@ def r2_field_sets(run, w):
   if len(oldvars) == 1:
     oldvar = next(iter(oldvars))
     d = H.single_def(mc, oldvar)
-    old_ok = isinstance(d, ast.Subscript) and text(d.slice) == p_col and \
+    old_ok = isinstance(d, ast.Subscript) and H.canon(mc, d.slice) == p_col and \
         mc.type_of(d.value) == "SchemaColumns"
   run.ob(R2, mc.qualname, "old = <schema columns>[col_id]", "defaults come from the current schema "
          "entry of the same column", old_ok, fi=mc.fi)
@@ -316,7 +330,7 @@ def r2_field_sets(run, w):
       src = [x for nid in du.backward_slice([info]) for e in mc.cfg.nodes[nid].exprs
              for x in calls_in(e) if endswith(mc.name(x), "col_to_dict")]
       ok = len(src) == 1 and src[0].args and oldvar is not None and \
-          text(src[0].args[0]) == oldvar
+          H.canon(mc, src[0].args[0]) == oldvar
   run.ob(R2, mc.qualname, desc, "the recorded inverse carries the old column's values (taken from "
          "the one col_to_dict(old, ...) call)", ok, fi=mc.fi)
   # (f) a no-op shortcut, if there is one, compares complete columns
@@ -340,11 +354,12 @@ def r2_field_sets(run, w):
   # (g) build_schema reads exactly the metadata fields that _updateColumnRecords translates
   bs = w.fn("schema.build_schema")
   ctors = [c for c in calls_in(bs.node) if endswith(dotted(c.func), "SchemaColumn")]
-  if len(ctors) != 1 or len(ctors[0].args) != len(fields) or ctors[0].keywords:
-    raise AnalysisError("schema.build_schema: expected one positional SchemaColumn(...) call")
+  if len(ctors) != 1 or by_field(ctors[0]) is None:
+    raise AnalysisError("schema.build_schema: expected one SchemaColumn(...) call giving every "
+                        "field")
   meta_fields = {}
   ok_pos = True
-  for f, a in zip(fields, ctors[0].args):
+  for f, a in zip(fields, by_field(ctors[0])):
     a = H.strip_bool(a)
     if isinstance(a, ast.Attribute) and isinstance(a.value, ast.Name):
       meta_fields[f] = a.attr
